@@ -60,6 +60,26 @@ fn gen_c17(rng: &mut Rng, thorough: bool, out: &mut Cases) {
             };
             vals.push(v);
         }
+        // consecutive calls P, P + step: starting points with every kind of sub-unit part, steps around the unit,
+        // the powers of two next to it and small ones, forwards and backwards (anything carried over from the
+        // previous call shows here)
+        let mut steps: Vec<u128> = vec![1, 2, unit - 1, unit, unit + 1, 2 * unit - 1, 2 * unit, 10 * unit];
+        for k in [9u32, 10, 19, 20, 21, 29, 30, 31, 32] {
+            steps.extend_from_slice(&[(1u128 << k) - 1, 1u128 << k, (1u128 << k) + 1]);
+        }
+        for base in [5 * unit, 4294 * unit, ((1u128 << 31) - 3) * unit] {
+            for sub in [0u128, 1, unit / 2, unit - 1, unit - unit / 20, unit - unit / 21, unit * 951_425 / 1_000_000, unit * 951_424 / 1_000_000] {
+                let p0 = base + sub;
+                for st in &steps {
+                    vals.push(p0);
+                    vals.push(p0 + st);
+                    vals.push(p0);
+                    if p0 >= *st {
+                        vals.push(p0 - st);
+                    }
+                }
+            }
+        }
         for v in vals {
             let mut w = W::new();
             w.n(v & (u64::MAX as u128));
@@ -100,9 +120,108 @@ pub fn msg_opts_for(rng: &mut Rng, i: usize) -> MsgOpts {
     o
 }
 
+/// messages built around the literals of the source under test: every binary literal in both storage modes
+/// (or the one asked for) and a few of the text literals
+pub fn dict_msgs(rng: &mut Rng, storage: Option<bool>) -> Vec<Message> {
+    let d = crate::dict::dict();
+    let mut v = vec![];
+    let modes: Vec<bool> = match storage {
+        Some(b) => vec![b],
+        None => vec![false, true],
+    };
+    for sh in &modes {
+        let o = MsgOpts { storage: Some(*sh), ..MsgOpts::default() };
+        for k in 0..d.bytes.len() {
+            let e = &d.bytes[k];
+            let binary = d.raw.contains(e);
+            if binary || rng.chance(1, 16) {
+                if let Some(m) = dict_message(rng, &o, Some(k)) {
+                    v.push(m);
+                }
+            }
+        }
+    }
+    v
+}
+
+/// the same bytes read in the other byte order: flip MSBF in the header type of a serialised message
+pub fn flip_byte_order(bs: &[u8], sh: bool) -> Vec<u8> {
+    let mut v = bs.to_vec();
+    let o = if sh { 16 } else { 0 };
+    if v.len() > o {
+        v[o] ^= 0x02;
+    }
+    v
+}
+
+/// A, A read in the other byte order, A again — one buffer, parsed repeatedly (op 25).  Decoding must not
+/// depend on what was decoded before.
+pub fn gen_flip_sequences(rng: &mut Rng, n: usize, out: &mut Cases) {
+    for i in 0..n {
+        let sh = i % 3 == 0;
+        let mut o = MsgOpts { storage: Some(sh), kind: Some(PKind::Verbose), max_blob: 12, ..MsgOpts::default() };
+        o.max_args = if i % 2 == 0 { 1 } else { 3 };
+        let mut m = gen_message(rng, &o);
+        if i % 4 == 1 {
+            // all arguments of one type
+            if let PayloadContent::Verbose(args) = &mut m.payload {
+                if let Some(a0) = args.first().cloned() {
+                    for a in args.iter_mut() {
+                        *a = a0.clone();
+                    }
+                }
+            }
+            m.header.payload_length = spec_payload_len(&m.payload) as u16;
+        }
+        let a = match std::panic::catch_unwind(|| m.as_bytes()) {
+            Ok(b) => b,
+            Err(_) => continue,
+        };
+        let b = flip_byte_order(&a, sh);
+        let mut buf = a.clone();
+        buf.extend_from_slice(&b);
+        buf.extend_from_slice(&a);
+        push_parse(out, 25, sh, &None, &buf);
+        let mut buf = b.clone();
+        buf.extend_from_slice(&a);
+        push_parse(out, 25, sh, &None, &buf);
+    }
+}
+
+/// a storage header that lost its message, directly in front of a stored message; with and without junk
+pub fn gen_orphan_headers(rng: &mut Rng, n: usize, out: &mut Cases) {
+    for i in 0..n {
+        let m = gen_message(rng, &MsgOpts { storage: Some(true), max_blob: 10, ..MsgOpts::default() });
+        let a = match std::panic::catch_unwind(|| m.as_bytes()) {
+            Ok(b) => b,
+            Err(_) => continue,
+        };
+        let mut buf = if i % 2 == 0 { gen_junk(rng) } else { vec![] };
+        for _ in 0..(1 + i % 3) {
+            if i % 4 >= 2 {
+                // a byte-identical copy of the message's own storage header (a logger that wrote it twice)
+                buf.extend_from_slice(&a[..16]);
+            } else {
+                buf.extend_from_slice(b"DLT\x01");
+                buf.extend_from_slice(&rng.bytes(12));
+            }
+        }
+        buf.extend_from_slice(&a);
+        buf.extend_from_slice(&a);
+        push_parse(out, 25, true, &None, &buf);
+        push_parse(out, 8, true, &None, &buf);
+    }
+}
+
 fn gen_c01(rng: &mut Rng, thorough: bool, out: &mut Cases) {
     let n = if thorough { 120_000 } else { 6_000 };
     for m in gen_twin_messages(rng, 40) {
+        let mut w = W::new();
+        w.msg(&m);
+        w.b(&gen_suffix(rng));
+        out.push(20, w);
+    }
+    for m in dict_msgs(rng, None) {
         let mut w = W::new();
         w.msg(&m);
         w.b(&gen_suffix(rng));
@@ -273,6 +392,38 @@ pub fn boundary_inputs(out: &mut Vec<(bool, Vec<u8>)>) {
                 p.extend_from_slice(text.as_bytes());
                 p.push(0);
                 out.push((false, wrap(&p, 1)));
+            }
+        }
+        // messages that FILL the 16-bit length exactly with many arguments whose name / unit / text are empty or not
+        // terminated (each such field is a byte shorter on the wire than a canonical one) plus one raw filler
+        for total in [65535usize, 65534, 65521] {
+            for k in [1usize, 2, 8, 9, 30, 254] {
+                let mut p: Vec<u8> = vec![];
+                for j in 0..k - 1 {
+                    match j % 3 {
+                        0 => {
+                            p.extend_from_slice(&u32b(0x841)); // u8 with variable info: name size 0, unit size 0
+                            p.extend_from_slice(&u16b(0));
+                            p.extend_from_slice(&u16b(0));
+                            p.push(j as u8);
+                        }
+                        1 => {
+                            p.extend_from_slice(&u32b(0xa00)); // string with variable info: size 0, name size 0
+                            p.extend_from_slice(&u16b(0));
+                            p.extend_from_slice(&u16b(0));
+                        }
+                        _ => {
+                            p.extend_from_slice(&u32b(0x8200)); // UTF-8 string without terminator
+                            p.extend_from_slice(&u16b(2));
+                            p.extend_from_slice(&[0xc3, 0xa9]);
+                        }
+                    }
+                }
+                let rest = total - 14 - p.len() - 6;
+                p.extend_from_slice(&u32b(0x400));
+                p.extend_from_slice(&u16b(rest as u16));
+                p.extend((0..rest).map(|x| (x % 253) as u8));
+                out.push((false, wrap(&p, k as u8)));
             }
         }
         // name size 0 / 1 on bool, string, raw with VARI; string size 0 / 1
@@ -551,6 +702,18 @@ fn gen_c03(rng: &mut Rng, thorough: bool, out: &mut Cases) {
 fn gen_c04(rng: &mut Rng, thorough: bool, out: &mut Cases) {
     let n = if thorough { 300_000 } else { 20_000 };
     let mut ins = vec![];
+    for m in dict_msgs(rng, None) {
+        if let Ok(b) = std::panic::catch_unwind(|| m.as_bytes()) {
+            let sh = m.storage_header.is_some();
+            let mut two = b.clone();
+            two.extend_from_slice(&b);
+            ins.push((sh, b.clone()));
+            ins.push((sh, b[..b.len() - 1].to_vec()));
+            ins.push((sh, two));
+        }
+    }
+    gen_orphan_headers(rng, if thorough { 200 } else { 30 }, out);
+    gen_flip_sequences(rng, if thorough { 2000 } else { 200 }, out);
     hostile_inputs(rng, n, &mut ins);
     dialect_inputs(rng, n / 2, &mut ins);
     for (i, (sh, bs)) in ins.iter().enumerate() {
@@ -577,9 +740,11 @@ fn gen_c04(rng: &mut Rng, thorough: bool, out: &mut Cases) {
 
 fn gen_c05(rng: &mut Rng, thorough: bool, out: &mut Cases) {
     let n = if thorough { 30_000 } else { 1_500 };
+    header_cut_sweep(rng, out);
     for i in 0..n {
         let mut o = msg_opts_for(rng, i);
         o.target_total = None;
+        o.dict = false; // every cut of a 20 KB message is too much; op 31 below takes them at selected cuts
         o.max_blob = o.max_blob.min(60);
         o.max_args = o.max_args.min(8);
         let m = gen_message(rng, &o);
@@ -630,6 +795,29 @@ fn gen_c05(rng: &mut Rng, thorough: bool, out: &mut Cases) {
         w.msg(&m);
         w.opt_filter(&None);
         out.push(23, w);
+    }
+    // messages built around the literals of the source under test, at selected cuts
+    for m in dict_msgs(rng, None) {
+        let len = match std::panic::catch_unwind(|| m.as_bytes().len()) {
+            Ok(l) => l,
+            Err(_) => continue,
+        };
+        let storage = if m.storage_header.is_some() { 16 } else { 0 };
+        let mut cuts: Vec<usize> = vec![0, 1, 3, 4, 5, 8, 15, 16, 17, storage + 3, storage + 4, storage + 5, storage + 7, storage + 8, storage + 9, storage + 12, len / 2, len - 5, len - 4, len - 2, len - 1];
+        for _ in 0..6 {
+            cuts.push(rng.below(len as u64) as usize);
+        }
+        cuts.retain(|k| *k < len);
+        cuts.sort();
+        cuts.dedup();
+        let mut w = W::new();
+        w.msg(&m);
+        w.opt_filter(&None);
+        w.n(cuts.len() as u128);
+        for k in &cuts {
+            w.n(*k as u128);
+        }
+        out.push(31, w);
     }
     // junk in front of a cut message (C05 through C06)
     gen_junkcut(rng, if thorough { 200 } else { 25 }, out);
@@ -712,6 +900,27 @@ fn gen_c06(rng: &mut Rng, thorough: bool, out: &mut Cases) {
         w.opt_filter(&f);
         out.push(24, w);
     }
+    for (i, m) in dict_msgs(rng, Some(true)).into_iter().enumerate() {
+        let mut w = W::new();
+        w.b(&if i % 4 == 3 { vec![] } else { gen_junk(rng) });
+        w.msg(&m);
+        w.b(&gen_suffix(rng));
+        w.opt_filter(&None);
+        out.push(24, w);
+        let mut w = W::new();
+        w.b(&gen_junk(rng));
+        w.n(3);
+        for k in 0..3 {
+            if k == 1 {
+                w.msg(&m);
+            } else {
+                w.msg(&gen_message(rng, &MsgOpts { storage: Some(true), ..MsgOpts::default() }));
+            }
+            w.b(&gen_junk(rng));
+        }
+        out.push(29, w);
+    }
+    gen_orphan_headers(rng, if thorough { 300 } else { 40 }, out);
     // long pattern-free junk: beyond one maximum-size message, with near misses at its end
     for (i, jl) in [65547usize, 65548, 65551, 65552, 70000, 131072, 140001].iter().enumerate() {
         let mut junk: Vec<u8> = (0..*jl).map(|k| if k % 7 == 3 { 0x44 } else { (k % 251) as u8 | 0x80 }).collect();
@@ -842,6 +1051,31 @@ pub fn gen_signal_type(rng: &mut Rng, allow_fp: bool) -> TypeInfo {
 
 fn gen_c13(rng: &mut Rng, thorough: bool, out: &mut Cases) {
     let n = if thorough { 150_000 } else { 8_000 };
+    // very long type lists (index and counter widths: 2^8, 2^15, 2^16)
+    for (i, nt) in [255usize, 256, 257, 4096, 32767, 32768, 65535, 65536, 65537, 70000].iter().enumerate() {
+        if !thorough && *nt > 66000 {
+            continue;
+        }
+        let t = TypeInfo {
+            // (bool for the long ones: the model decodes a bool field by pattern matching, every other kind measures
+            // the remaining payload first, which is quadratic on lists)
+            kind: if i % 2 == 0 && *nt < 5000 { TypeInfoKind::Unsigned(TypeLength::BitLength8) } else { TypeInfoKind::Bool },
+            coding: StringCoding::ASCII,
+            has_variable_info: false,
+            has_trace_info: false,
+        };
+        let data: Vec<u8> = (0..*nt).map(|k| (k % 251) as u8 & if i % 2 == 0 && *nt < 5000 { 0xff } else { 1 }).collect();
+        for d in [&data[..], &data[..data.len() - 1]] {
+            let mut w = W::new();
+            w.endian(if i % 3 == 0 { Endianness::Big } else { Endianness::Little });
+            w.n(*nt as u128);
+            for _ in 0..*nt {
+                w.ti(&t);
+            }
+            w.b(d);
+            out.push(13, w);
+        }
+    }
     gen_c13_n(rng, n, out)
 }
 
@@ -961,11 +1195,13 @@ fn gen_c15(rng: &mut Rng, thorough: bool, out: &mut Cases) {
         let mut w = W::new();
         w.cfg(&c);
         w.opt_sh(&m.storage_header);
-        if rng.chance(1, 3) {
-            w.n(1);
-            w.ts(&DltTimeStamp { seconds: gen_u(rng, 32) as u32, microseconds: gen_u(rng, 32) as u32 });
-        } else {
-            w.n(0);
+        match rng.below(6) {
+            0 | 1 => {
+                w.n(1);
+                w.ts(&DltTimeStamp { seconds: gen_u(rng, 32) as u32, microseconds: gen_u(rng, 32) as u32 });
+            }
+            2 => w.n(2), // add_storage_header(None): the clock
+            _ => w.n(0),
         }
         out.push(15, w);
     }
@@ -981,11 +1217,91 @@ fn gen_c16(rng: &mut Rng, thorough: bool, out: &mut Cases) {
     }
     dialect_inputs(rng, n, &mut ins);
     hostile_inputs(rng, n / 2, &mut ins);
+    gen_flip_sequences(rng, if thorough { 3000 } else { 300 }, out);
+    gen_new_then_stable(rng, if thorough { 20_000 } else { 2_000 }, out);
     for (sh, bs) in ins {
         let mut w = W::new();
         w.bool(sh);
         w.b(&bs);
         out.push(28, w);
+    }
+}
+
+/// a message of the same shape and sizes but other contents
+pub fn sibling(m: &Message) -> Message {
+    let mut s = m.clone();
+    let flip = |b: &mut Vec<u8>| {
+        for x in b.iter_mut() {
+            *x ^= 0x55;
+        }
+    };
+    match &mut s.payload {
+        PayloadContent::NonVerbose(id, b) => {
+            *id ^= 2;
+            flip(b);
+        }
+        PayloadContent::ControlMsg(_, b) => flip(b),
+        PayloadContent::NetworkTrace(l) => l.iter_mut().for_each(flip),
+        PayloadContent::Verbose(args) => {
+            for a in args.iter_mut() {
+                a.value = match &a.value {
+                    Value::Bool(v) => Value::Bool(v ^ 1),
+                    Value::U8(v) => Value::U8(v ^ 1),
+                    Value::U16(v) => Value::U16(v ^ 1),
+                    Value::U32(v) => Value::U32(v ^ 1),
+                    Value::U64(v) => Value::U64(v ^ 1),
+                    Value::U128(v) => Value::U128(v ^ 1),
+                    Value::I8(v) => Value::I8(v ^ 1),
+                    Value::I16(v) => Value::I16(v ^ 1),
+                    Value::I32(v) => Value::I32(v ^ 1),
+                    Value::I64(v) => Value::I64(v ^ 1),
+                    Value::I128(v) => Value::I128(v ^ 1),
+                    Value::F32(v) => Value::F32(f32::from_bits(v.to_bits() ^ 1)),
+                    Value::F64(v) => Value::F64(f64::from_bits(v.to_bits() ^ 1)),
+                    Value::StringVal(t) => Value::StringVal(t.chars().map(|c| if c == 'a' { 'b' } else if c.is_ascii() { 'a' } else { c }).collect()),
+                    Value::Raw(b) => Value::Raw(b.iter().map(|x| x ^ 0x55).collect()),
+                };
+            }
+        }
+    }
+    s
+}
+
+/// op 38: Message::new(configuration of m) is built and dropped unwritten, then a SIBLING of m (same shape and
+/// sizes, other contents) is parsed and re-serialised
+pub fn gen_new_then_stable(rng: &mut Rng, n: usize, out: &mut Cases) {
+    for i in 0..n {
+        let mut o = msg_opts_for(rng, i);
+        o.target_total = None;
+        o.dict = false;
+        o.max_blob = if i % 5 == 0 { 0 } else { 12 };
+        o.max_args = 3;
+        let m = gen_message(rng, &o);
+        let sib = sibling(&m);
+        let bs = match std::panic::catch_unwind(|| sib.as_bytes()) {
+            Ok(b) => b,
+            Err(_) => continue,
+        };
+        let c = MessageConfig {
+            version: m.header.version,
+            counter: m.header.message_counter,
+            endianness: m.header.endianness,
+            ecu_id: m.header.ecu_id.clone(),
+            session_id: m.header.session_id,
+            timestamp: m.header.timestamp,
+            payload: m.payload.clone(),
+            extended_header_info: m.extended_header.as_ref().map(|x| ExtendedHeaderConfig {
+                message_type: x.message_type.clone(),
+                app_id: x.application_id.clone(),
+                context_id: x.context_id.clone(),
+            }),
+        };
+        let mut w = W::new();
+        w.cfg(&c);
+        w.opt_sh(&m.storage_header);
+        w.bool(m.storage_header.is_some());
+        w.b(&bs);
+        out.push(38, w);
     }
 }
 
@@ -1097,7 +1413,100 @@ fn gen_c02(rng: &mut Rng, thorough: bool, out: &mut Cases) {
     }
 }
 
+/// every combination of optional header fields x declared lengths (below the header, exact, too large) x every
+/// cut through the headers, both storage modes: what a buffer that ends inside a header field reports
+pub fn header_cut_sweep(rng: &mut Rng, out: &mut Cases) {
+    for sh in [false, true] {
+        for flags in 0..32u8 {
+            let htyp = 0x20 | flags;
+            let mut full: Vec<u8> = vec![];
+            if sh {
+                full.extend_from_slice(b"DLT\x01");
+                full.extend_from_slice(&[1, 0, 0, 0, 2, 0, 0, 0]);
+                full.extend_from_slice(b"EC\x00U");
+            }
+            let o = full.len();
+            full.extend_from_slice(&[htyp, rng.next() as u8, 0, 0]);
+            if flags & 4 != 0 {
+                full.extend_from_slice(&[0x45, 0x43, if flags & 8 != 0 { 0 } else { 0x55 }, 0x31]);
+            }
+            if flags & 8 != 0 {
+                full.extend_from_slice(&[0, 0, 1, 2]);
+            }
+            if flags & 0x10 != 0 {
+                full.extend_from_slice(&[9, 9, 9, 9]);
+            }
+            if flags & 1 != 0 {
+                full.extend_from_slice(&[0x40, 0, 0x41, 0x50, 0xC3, 0x00, 0x43, 0x54, 0x58, 0xFF]);
+            }
+            full.extend_from_slice(&[1, 2, 3, 4, 5, 6]);
+            let real = (full.len() - o) as u16;
+            for l in [0u16, 1, 2, 3, 4, 7, 8, real - 1, real, real + 1, 0xffff] {
+                let mut v = full.clone();
+                v[o + 2] = (l >> 8) as u8;
+                v[o + 3] = l as u8;
+                for cut in o..=v.len() {
+                    push_parse(out, 8, sh, &None, &v[..cut]);
+                }
+            }
+        }
+    }
+}
+
+/// neighbouring header fields whose bytes are valid UTF-8 only when read TOGETHER: a multi-byte character straddling
+/// the border between application and context id, between ECU id and the field behind it, between the storage
+/// header's ECU id and the header type.  Each id is decided by its own four bytes.
+pub fn straddling_ids(out: &mut Cases) {
+    for ch in ["é", "€", "𝄞", "\u{7ff}", "\u{800}", "\u{ffff}"] {
+        let cb = ch.as_bytes();
+        for k in 1..cb.len() {
+            // k bytes of the character end the first field, the rest start the second
+            let mut first = vec![b'a'; 4 - k];
+            first.extend_from_slice(&cb[..k]);
+            for tail in [b'd', 0u8] {
+                let mut second = cb[k..].to_vec();
+                while second.len() < 4 {
+                    second.push(tail);
+                }
+                // application / context id
+                let mut v = vec![0x21, 7, 0, 0, 0x41, 0];
+                v.extend_from_slice(&first);
+                v.extend_from_slice(&second);
+                v.extend_from_slice(&[1, 2, 3, 4]);
+                let l = v.len() as u16;
+                v[2] = (l >> 8) as u8;
+                v[3] = l as u8;
+                push_parse(out, 8, false, &None, &v);
+                // ECU id / session id, with extended header behind
+                let mut v = vec![0x2d, 7, 0, 0];
+                v.extend_from_slice(&first);
+                v.extend_from_slice(&second);
+                v.extend_from_slice(&[0x41, 0, b'A', b'P', b'P', 0, b'C', b'T', b'X', 0, 1, 2, 3, 4]);
+                let l = v.len() as u16;
+                v[2] = (l >> 8) as u8;
+                v[3] = l as u8;
+                push_parse(out, 8, false, &None, &v);
+                // storage-header ECU id / what follows (only the first field is an id here)
+                let mut v = b"DLT\x01".to_vec();
+                v.extend_from_slice(&[1, 0, 0, 0, 2, 0, 0, 0]);
+                v.extend_from_slice(&first);
+                let o = v.len();
+                v.extend_from_slice(&[0x21, 7, 0, 0, 0x41, 0]);
+                v.extend_from_slice(&second);
+                v.extend_from_slice(&first);
+                v.extend_from_slice(&[1, 2, 3, 4]);
+                let l = (v.len() - o) as u16;
+                v[o + 2] = (l >> 8) as u8;
+                v[o + 3] = l as u8;
+                push_parse(out, 8, true, &None, &v);
+            }
+        }
+    }
+}
+
 fn gen_c19(rng: &mut Rng, thorough: bool, out: &mut Cases) {
+    header_cut_sweep(rng, out);
+    straddling_ids(out);
     let alphabet: [u8; 25] = [
         0x00, 0x41, 0x7F, 0x80, 0x8F, 0x90, 0x9F, 0xA0, 0xBF, 0xC0, 0xC1, 0xC2, 0xDF, 0xE0, 0xE1, 0xEC, 0xED, 0xEE, 0xEF, 0xF0, 0xF1,
         0xF3, 0xF4, 0xF5, 0xFF,
@@ -1194,7 +1603,11 @@ fn gen_c10(rng: &mut Rng, thorough: bool, out: &mut Cases) {
             _ => rng.range(2, 5),
         } as usize;
         // a small id vocabulary so that ids repeat across messages and parts
-        let ids = ["A", "B", "APP", "CTX1", "", "é", "NONE"];
+        // (with ids that a cheaper key -- packed characters, folded case, trimmed, summed bytes -- would conflate)
+        let ids = [
+            "A", "B", "APP", "CTX1", "", "é", "NONE", "中", "N-", "䅁", "AA", "app", "A ", " A", "AB", "BA", "AC", "BB", "ABC", "ABCD",
+            "ABCE", "\u{e9}", "e\u{301}", "ECU", "DLT",
+        ];
         let mut w = W::new();
         w.n((i % 4) as u128);
         w.n(nparts as u128);
@@ -1224,6 +1637,59 @@ fn gen_c10(rng: &mut Rng, thorough: bool, out: &mut Cases) {
             }
         }
         out.push(32, w);
+    }
+    // many distinct ids (beyond any small-table / linear-scan threshold: 300, 1100, 4200), merged with parts that bring
+    // both known and new ids in a scrambled order
+    for (ci, nid) in [300usize, 1100, 4200].iter().enumerate() {
+        if !thorough && *nid > 2000 {
+            continue;
+        }
+        let mk = |rng: &mut Rng, j: usize, sh: bool| -> Message {
+            let id = format!("{:04X}", (j * 7919) % 65536);
+            Message {
+                storage_header: if sh { Some(StorageHeader { timestamp: DltTimeStamp { seconds: 1, microseconds: 2 }, ecu_id: "E".into() }) } else { None },
+                header: StandardHeader {
+                    version: 1,
+                    endianness: Endianness::Big,
+                    has_extended_header: true,
+                    message_counter: j as u8,
+                    ecu_id: if j % 3 == 0 { Some(id.clone()) } else { None },
+                    session_id: None,
+                    timestamp: None,
+                    payload_length: 4,
+                },
+                extended_header: Some(ExtendedHeader {
+                    verbose: false,
+                    argument_count: 0,
+                    message_type: MessageType::Log(gen_log_level(rng)),
+                    application_id: if j % 2 == 0 { id.clone() } else { "APP".into() },
+                    context_id: id,
+                }),
+                payload: PayloadContent::NonVerbose(j as u32, vec![]),
+            }
+        };
+        for shape in 0..4u128 {
+            let sh = shape % 2 == 0;
+            let mut w = W::new();
+            w.n(shape);
+            w.n(3);
+            w.n(*nid as u128);
+            for j in 0..*nid {
+                w.msg(&mk(rng, j, sh));
+            }
+            for part in 0..2 {
+                let k = 60;
+                w.n(k as u128);
+                for _ in 0..k {
+                    let j = if rng.bool() { rng.below(*nid as u64) as usize } else { *nid + rng.below(5000) as usize + part * 5000 };
+                    w.msg(&mk(rng, j, sh));
+                }
+            }
+            out.push(32, w);
+            if ci > 0 && shape >= 1 {
+                break;
+            }
+        }
     }
     // the scan loop on arbitrary streams (well-formed, truncated, hostile lengths, random) under read schedules
     crate::gen2::gen_scan(rng, if thorough { 20_000 } else { 1_500 }, out);
@@ -1259,6 +1725,8 @@ fn gen_c14(rng: &mut Rng, thorough: bool, out: &mut Cases) {
             out.push(8, w);
         }
     }
+    // the same argument bytes read in both byte orders, one after the other
+    gen_flip_sequences(rng, if thorough { 3000 } else { 300 }, out);
     // type-info words through the ordinary pipeline: boundary words and a seeded sample
     // (the exhaustive comparison is the ti-sweep)
     let mut words: Vec<u32> = vec![0, 0xffff_ffff, 0x3ffff, 0x40000, 0x8000_0000];
@@ -1320,6 +1788,15 @@ pub fn gen_bigjunk(rng: &mut Rng, thorough: bool, out: &mut Cases) {
     ];
     if thorough {
         ns.extend_from_slice(&[((1 << 26) + 3, 0x54), ((1u128 << 32) - 3, 0x00), ((1u128 << 33) + 1, 0x00)]);
+    }
+    // junk lengths next to every large number the source under test spells (block sizes, capacities)
+    for big in crate::dict::dict().big.iter() {
+        for d in 0..6u128 {
+            let n = *big as u128 + 1 - d;
+            if !ns.iter().any(|(x, _)| *x == n) {
+                ns.push((n, if d % 2 == 0 { 0x00 } else { 0x2e }));
+            }
+        }
     }
     for (i, (n, fill)) in ns.iter().enumerate() {
         let m = gen_message(rng, &MsgOpts { storage: Some(true), ..MsgOpts::default() });
